@@ -21,7 +21,7 @@ def absC (c : Gen.CR ρ) : Cache Bytes (Option ρ) :=
 structure Inv (c : Gen.CR ρ) : Prop where
   ids : (c.list.items.map (·.id)).Nodup
   keys : (c.list.items.map (·.key)).Nodup
-  fresh : ∀ e ∈ c.list.items, e.id < c.list.next
+  fresh : ∀ e ∈ c.list.items, e.id < c.list.nextId
   map : ∀ k, c.hashMap.get k = (c.list.items.find? (fun e => e.key == k)).map (·.id)
 
 theorem tie_Len (c : Gen.CR ρ) : Gen.CR.Len c = ((absC c).len : Int) := by
@@ -354,7 +354,128 @@ theorem tie_Set (c : Gen.CR ρ) (k : Bytes) (v : Option ρ) (h : Inv c) :
     rw [hf] at hm hany
     simp only [Option.map_none] at hm
     simp only [hm, hany, Option.isSome_none, Bool.false_eq_true, if_false]
-    sorry
+    have hpush : c.list.pushFront (k, v) =
+        ({ items := ⟨c.list.nextId, k, v⟩ :: c.list.items, nextId := c.list.nextId + 1 }, some c.list.nextId) := rfl
+    simp only [hpush]
+    have hkn : k ∉ c.list.items.map (·.key) := by
+      intro hmem
+      obtain ⟨y, hy, hyk⟩ := List.mem_map.mp hmem
+      have := List.find?_eq_none.mp hf y hy
+      simp [hyk] at this
+    have hidn : c.list.nextId ∉ c.list.items.map (·.id) := by
+      intro hmem
+      obtain ⟨y, hy, hyk⟩ := List.mem_map.mp hmem
+      have := h.fresh y hy
+      have hyk' : y.id = c.list.nextId := hyk
+      omega
+    have hinv1 : Inv ({ size := c.size, list := { items := ⟨c.list.nextId, k, v⟩ :: c.list.items, nextId := c.list.nextId + 1 }, hashMap := c.hashMap.set k (some c.list.nextId) } : Gen.CR ρ) := by
+      refine ⟨?_, ?_, ?_, ?_⟩
+      · simp only [List.map_cons, List.nodup_cons]; exact ⟨hidn, h.ids⟩
+      · simp only [List.map_cons, List.nodup_cons]; exact ⟨hkn, h.keys⟩
+      · intro x hx
+        rcases List.mem_cons.mp hx with h1 | h1
+        · subst h1; simp
+        · have := h.fresh x h1; simp only; omega
+      · intro k'
+        simp only [hget_set, List.find?_cons, h.map k']
+        by_cases hk' : k' = k
+        · subst hk'; simp
+        · have : (k == k') = false := by simp; exact fun e => hk' e.symm
+          simp [hk', this]
+    have hlen : decide (LList.len ({ items := ⟨c.list.nextId, k, v⟩ :: c.list.items, nextId := c.list.nextId + 1 } : LList ρ)
+        > c.size) = decide (((k, v) :: (absC c).items).length > (absC c).cap) := by
+      simp only [LList.len, absC, List.length_cons, List.length_map]
+      congr 1
+      apply propext
+      constructor <;> intro hh <;> omega
+    rw [hlen]
+    by_cases hgt : ((k, v) :: (absC c).items).length > (absC c).cap
+    · simp only [hgt, decide_true, if_true]
+      -- the element at the back
+      obtain ⟨x, hx⟩ : ∃ x, (⟨c.list.nextId, k, v⟩ :: c.list.items : List (LElem ρ)).getLast? = some x := by
+        cases hl : (⟨c.list.nextId, k, v⟩ :: c.list.items : List (LElem ρ)).getLast? with
+        | none => simp at hl
+        | some x => exact ⟨x, rfl⟩
+      have hxm : x ∈ (⟨c.list.nextId, k, v⟩ :: c.list.items : List (LElem ρ)) := List.mem_of_getLast? hx
+      have hback : LList.back ({ items := ⟨c.list.nextId, k, v⟩ :: c.list.items, nextId := c.list.nextId + 1 } : LList ρ)
+          = some x.id := by simp only [LList.back, hx, Option.map_some]
+      have hkey : LList.keyOf ({ items := ⟨c.list.nextId, k, v⟩ :: c.list.items, nextId := c.list.nextId + 1 } : LList ρ)
+          (some x.id) = x.key := by
+        simp only [LList.keyOf, LList.find, find_id_of_mem hinv1.ids hxm, Option.map_some, Option.getD_some]
+      simp only [hback, hkey, Option.isNone_some, Bool.false_eq_true, if_false, LList.remove]
+      refine ⟨inv_removed hinv1 hxm, ?_, trivial⟩
+      simp only [absC, filter_last hinv1.ids hx, List.map_dropLast, List.map_cons]
+    · simp only [hgt, decide_false, Bool.false_eq_true, if_false]
+      exact ⟨hinv1, by simp [absC], trivial⟩
+
+/-- `Has` is `Get` without the value -/
+theorem tie_Has (c : Gen.CR ρ) (k : Bytes) (h : Inv c) :
+    Inv (Gen.CR.Has c k).1 ∧ absC (Gen.CR.Has c k).1 = ((absC c).has k).2 ∧
+    (Gen.CR.Has c k).2 = ((absC c).has k).1 := by
+  obtain ⟨h1, h2, h3, _⟩ := tie_Get c k h
+  simp only [Gen.CR.Has, Id.run, GoRt.idPure, Cache.has]
+  exact ⟨h1, h2, h3⟩
+
+/-! ### operation sequences -/
+
+/-- `NewCachedRoutes(size)`: empty list, empty map (the constructor is a composite literal; not translated) -/
+def genNew (size : Int) : Gen.CR ρ := { size := size, list := {}, hashMap := {} }
+
+theorem inv_new (size : Int) : Inv (genNew size : Gen.CR ρ) := by
+  refine ⟨?_, ?_, ?_, ?_⟩ <;> simp [genNew, HMap.get]
+
+theorem abs_new (size : Int) : absC (genNew size : Gen.CR ρ) = Cache.empty size.toNat := rfl
+
+/-- one model operation executed by the GENERATED functions -/
+def genStepC (c : Gen.CR ρ) : CacheOp Bytes (Option ρ) → Gen.CR ρ × CacheOut (Option ρ)
+  | .set k v => ((Gen.CR.Set c k v).1, .bool (Gen.CR.Set c k v).2)
+  | .get k => ((Gen.CR.Get c k).1, .val (if (Gen.CR.Get c k).2.2 then some (Gen.CR.Get c k).2.1 else none))
+  | .has k => ((Gen.CR.Has c k).1, .bool (Gen.CR.Has c k).2)
+  | .del k => ((Gen.CR.Delete c k).1, .bool (Gen.CR.Delete c k).2)
+  | .len => (c, .nat (Gen.CR.Len c).toNat)
+
+theorem tie_stepC (c : Gen.CR ρ) (op : CacheOp Bytes (Option ρ)) (h : Inv c) :
+    Inv (genStepC c op).1 ∧ absC (genStepC c op).1 = ((absC c).step op).1 ∧
+    (genStepC c op).2 = ((absC c).step op).2 := by
+  cases op with
+  | set k v =>
+    obtain ⟨h1, h2, h3⟩ := tie_Set c k v h
+    exact ⟨h1, h2, by simp [genStepC, Cache.step, h3]⟩
+  | get k =>
+    obtain ⟨h1, h2, h3, h4⟩ := tie_Get c k h
+    refine ⟨h1, h2, ?_⟩
+    simp only [genStepC, Cache.step, h3, h4]
+    cases ((absC c).get k).1 <;> simp
+  | has k =>
+    obtain ⟨h1, h2, h3⟩ := tie_Has c k h
+    exact ⟨h1, h2, by simp [genStepC, Cache.step, h3]⟩
+  | del k =>
+    obtain ⟨h1, h2, h3⟩ := tie_Delete c k h
+    exact ⟨h1, h2, by simp [genStepC, Cache.step, h3]⟩
+  | len => exact ⟨h, rfl, by simp [genStepC, Cache.step, tie_Len]⟩
+
+def genRunC (c : Gen.CR ρ) : List (CacheOp Bytes (Option ρ)) → Gen.CR ρ
+  | [] => c
+  | op :: ops => genRunC (genStepC c op).1 ops
+
+def genOutputsC (c : Gen.CR ρ) : List (CacheOp Bytes (Option ρ)) → List (CacheOut (Option ρ))
+  | [] => []
+  | op :: ops => (genStepC c op).2 :: genOutputsC (genStepC c op).1 ops
+
+/-- any operation sequence on the generated code: same outputs and same abstract state as the model,
+    and the representation invariant holds throughout -/
+theorem tie_runC (ops : List (CacheOp Bytes (Option ρ))) : ∀ (c : Gen.CR ρ), Inv c →
+    Inv (genRunC c ops) ∧ absC (genRunC c ops) = (absC c).run ops ∧
+    genOutputsC c ops = (absC c).outputs ops := by
+  induction ops with
+  | nil => intro c h; exact ⟨h, rfl, rfl⟩
+  | cons op ops ih =>
+    intro c h
+    obtain ⟨h1, h2, h3⟩ := tie_stepC c op h
+    obtain ⟨i1, i2, i3⟩ := ih _ h1
+    refine ⟨i1, ?_, ?_⟩
+    · simp only [genRunC, Cache.run]; rw [i2, h2]
+    · simp only [genOutputsC, Cache.outputs]; rw [i3, h2, h3]
 
 end Tie
 end Rux
